@@ -15,3 +15,4 @@ pub mod profiles;
 pub mod seqx;
 pub mod tabops;
 pub mod types;
+pub mod typex;
